@@ -142,6 +142,12 @@ def agree(case, impl, model):
         if r is None or len(r[1]) != 1:
             return False
         o = t[2]
+        if o.startswith("s"):                 # a string spelling of the order (both &str and String are called)
+            name = bytes.fromhex(o[1:]).decode().lower()
+            if name == "-inf":
+                want = float(min(abs(x) for x in e1))
+                return abs(r[1][0] - want) <= 1e-9 * max(1.0, abs(want))
+            o = {"inf": "z99", "1": "z1", "2": "z2"}.get(name, o)
         if o in ("n", "z2"):
             want = math.sqrt(sum(x * x for x in e1))
         elif o == "z1":
@@ -257,6 +263,9 @@ def gen(seed, tier):
         v = [rng.randint(-20, 20) for _ in range(n)]
         for o in ("n", "z1", "z2", "z99"):
             out.append(f"norm {arr([n], v)} {o}")
+        # the orders by name, as &str and as String (seeded change C15m: "inf" was parsed as a number first)
+        for name in ("inf", "Inf", "INF", "-inf", "1", "2"):
+            out.append(f"norm {arr([n], v)} s{name.encode().hex()}")
     out.append(f"norm a2x2:1,2,3,4 n")
     # the default norm (root of the sum of squares) of matrices, stacks of matrices and higher ranks
     for sh in ([2, 2], [3, 3], [2, 3], [4, 1], [1, 4], [2, 2, 2], [3, 4, 4], [2, 3, 3], [1, 1, 1], [2, 3, 3, 3], [2, 1, 2, 2], [5, 2, 2]):
